@@ -267,10 +267,8 @@ func sameCookiePath(a, b []byte) bool {
 // searchCookieByKeyAndPath looks up a cookie by its key and path from the provided slice of cookies.
 func searchCookieByKeyAndPath(key, path []byte, cookies []*fasthttp.Cookie) *fasthttp.Cookie {
 	for _, c := range cookies {
-		if bytes.Equal(key, c.Key()) {
-			if len(path) <= 1 || bytes.HasPrefix(c.Path(), path) {
-				return c
-			}
+		if bytes.Equal(key, c.Key()) && sameCookiePath(c.Path(), path) {
+			return c
 		}
 	}
 	return nil
